@@ -1145,8 +1145,20 @@ class WorkflowConductor(object):
                 task_state_entry["term"] = True
 
         # Process the task event using the workflow state machine and update the workflow status.
+        old_workflow_status = self.get_workflow_status()
         task_ex_event = events.TaskExecutionEvent(task_id, route, task_state_entry["status"])
         machines.WorkflowStateMachine.process_event(self.workflow_state, task_ex_event)
+
+        # If the task event starts to pause or cancel the workflow (i.e. the task is pending or
+        # canceled), pass it on to the other active tasks, same as when it is requested. Otherwise
+        # a with items task that is in between items keeps running with nothing on offer.
+        new_workflow_status = self.get_workflow_status()
+
+        if new_workflow_status != old_workflow_status and new_workflow_status in [
+            statuses.PAUSING,
+            statuses.CANCELING,
+        ]:
+            self.request_workflow_status(new_workflow_status)
 
         # Process any engine commands in the queue.
         while not engine_event_queue.empty():
